@@ -30,12 +30,22 @@ pub const MARKER: u8 = 0x7f;
 include!("verif_replay.rs");
 static mut RP_IDX: usize = 0;
 
-fn rp_next() -> &'static [u8]
+fn rp_next() -> [u8; 8]
 {
     unsafe {
         let i = RP_IDX;
         RP_IDX += 1;
-        if i < REPLAY.len() { REPLAY[i] } else { &[0, 0, 0, 0, 0, 0, 0, 0] }
+        let mut out = [0u8; 8];
+        if i < REPLAY_N
+        {
+            let mut k = 0;
+            while k < 8
+            {
+                out[k] = REPLAY_FLAT[i * 8 + k];
+                k += 1;
+            }
+        }
+        out
     }
 }
 fn sym_u8() -> u8
@@ -1298,7 +1308,7 @@ fn u_pr()
         }
         else
         {
-            assert!(r.is_some() && PR_REDUCED, "C05: an uninterrupted pass produces a result");
+            assert!(r.is_some() && PR_REDUCED, "C05/C17: an uninterrupted pass produces a result even if some file cannot be read");
             let expect = (if ua { 0 } else { 1 }) + (if ub { 0 } else { 1 });
             assert!(PR_NMAPPED == expect, "C17: every readable file is processed exactly once, unreadable ones are skipped");
             assert!(r.unwrap() as usize == expect, "C05: the result is reduced from every processed file");
